@@ -38,3 +38,21 @@ def guards_snippet(f):
 
 guards_snippet.all_returns = True
 guards_snippet.extra_calls = ('take', 'skip', 'repeat', 'get_highlight', 'count', 'replace', 'filter')
+
+
+def guards_request(f):
+    return (f.span.file or '') == 'slicec/src/main.rs' and any(x in f.path for x in ('encode_generate_code_request', 'spawn_plugin_process'))
+
+
+guards_request.all_returns = True
+guards_request.crates = ('slicec_bin',)
+guards_request.extra_calls = ('encode', 'push', 'write_all', 'from')
+
+
+def guards_converter(f):
+    return (f.span.file or '') == 'slicec/src/slice_file_converter.rs'
+
+
+guards_converter.all_returns = True
+guards_converter.crates = ('slicec_bin',)
+guards_converter.extra_calls = ('push', 'find', 'map', 'unwrap')
